@@ -976,10 +976,12 @@ def check_sites(ctx, res, batch, N, R, n_cases):
     NS = types.SimpleNamespace
     rng = ctx.rng
     NA = float(R.AVOGADROS_NUMBER)
-    for _ in range(n_cases):
+    forced = [[a] for a in SITES] + [[a, b] for a in SITES for b in SITES if a != b] + [[a, a] for a in SITES]
+    for icase in range(max(n_cases, len(forced))):
         sinfo = {'kind': 'sites'}
         with Guard(res, 'sites', sinfo, where='_calcNucleationSites on random populations'):
-            nph = rng.choice([1, 1, 2, 3, 4])
+            force = forced[icase] if icase < len(forced) else None
+            nph = len(force) if force else rng.choice([1, 1, 2, 3, 4])
             matrix = MatrixParameters(['B'])
             matrix.volume.setVolume(10 ** rng.uniform(-5.2, -4.8), 'VM', 4)
             matrix.initComposition = 10 ** rng.uniform(-4, -1.5)
@@ -989,7 +991,7 @@ def check_sites(ctx, res, batch, N, R, n_cases):
             precs, pbms, xs, descs = [], [], [], []
             common = rng.choice(SITES)
             for q in range(nph):
-                site = common if rng.random() < 0.6 else rng.choice(SITES)
+                site = force[q] if force else (common if rng.random() < 0.6 else rng.choice(SITES))
                 prec, d = make_prec(ctx, N, site, shapes=False)
                 bins = rng.choice([1, 3, 10, 40])
                 pbm = PopulationBalanceModel(cMin=1e-10, cMax=10 ** rng.uniform(-8.5, -7), bins=bins)
@@ -997,8 +999,8 @@ def check_sites(ctx, res, batch, N, R, n_cases):
                 dens = rng.choice([0.0, 1e-3, 0.3, 1.0, 3.0]) * target / bins
                 x = dens * np.array([rng.choice([0.0, rng.random(), 1.0]) for _ in range(bins)])
                 precs.append(prec); pbms.append(pbm); xs.append(x); descs.append(d)
-            p = rng.randrange(nph)
-            parents = sorted(set(rng.randrange(nph) for _ in range(rng.choice([0, 0, 0, 1, 2]))))
+            p = 0 if force else rng.randrange(nph)
+            parents = [] if force else sorted(set(rng.randrange(nph) for _ in range(rng.choice([0, 0, 0, 1, 2]))))
             for q in range(nph):
                 precs[q].parentPhases = list(parents) if q == p else []
             slf = NS(precipitateParameters=precs, PBM=pbms, phases=['P%d' % q for q in range(nph)], matrixParameters=matrix)
@@ -1024,15 +1026,98 @@ def check_sites(ctx, res, batch, N, R, n_cases):
                 if not close(got, m, 1e-9, n0 + max(got, m)):
                     res.disagree('_calcNucleationSites', case, got, m)
             batch.add('sites.calc %s %d %s %s %s' % (' '.join(f2b(v) for v in cfg), nph, ' '.join(ph), vlib.enc_ilist(parents), descs[p]['site']), cb)
-            # ---- direct oracle
+            # ---- direct oracle on the real function, against an independent scalar reference
+            site_p = descs[p]['site']
             if not (got >= 0 and math.isfinite(got)):
                 res.violate('sites-negative', 'number of available nucleation sites negative or not finite', case, got, '>= 0')
-            if not parents:
-                xs2 = [x * rng.uniform(1.0, 3.0) + (rng.random() < 0.5) * x.max() * rng.random() for x in xs]
+
+            def call(xv):
                 with np.errstate(all='ignore'):
-                    got2 = float(PrecipitateModel._calcNucleationSites(slf, 0.0, xs2, p))
-                if got2 > got * (1 + 1e-12) + 1e-9 * abs(got):
-                    res.violate('sites-increase-with-population', 'available sites increase when the occupying populations grow', dict(case, x2=[x.tolist() for x in xs2]), [got, got2], 'non-increasing')
+                    return float(PrecipitateModel._calcNucleationSites(slf, 0.0, xv, p))
+            kinds = [site_kind(d['site']) for d in descs]
+            n0, occ, par = ref_sites(cfg, descs, pbms, xs, precs, p, parents)
+            want = max(par + n0 - occ, 0.0)
+            mag = abs(n0) + abs(occ) + abs(par)
+            if not close(got, want, 1e-9, mag):
+                res.violate('sites-not-N0-minus-occupancy:' + site_p, 'available sites != max(parent sites + N0 - sites occupied by the precipitates of the same site type, 0)',
+                            dict(case, N0=n0, occupied=occ, parent_sites=par), got, want)
+            zero = [np.zeros(len(x)) for x in xs]
+            if not parents:
+                e = call(zero)
+                if not close(e, n0, 1e-12):
+                    res.violate('sites-empty-not-N0:' + site_p, 'no precipitates: available sites != N0 of the site type', dict(case, x=[z.tolist() for z in zero]), e, n0)
+                # strictly fewer sites when the phase's own population grows (while sites are left)
+                xs2 = [x.copy() for x in xs]
+                add = max(0.05 * n0, 0.0) / max(occ_unit(descs[p], pbms[p], cfg, NA), 1e-300) / len(xs2[p])
+                xs2[p] = xs2[p] + add
+                g2 = call(xs2)
+                if got > 0 and not (g2 < got):
+                    res.violate('sites-not-decreasing-with-own-population:' + site_p, 'available sites do not decrease when precipitates of the nucleating phase occupy sites',
+                                dict(case, x2=[x.tolist() for x in xs2]), [got, g2], 'strictly decreasing while sites are left')
+                if g2 > got * (1 + 1e-12):
+                    res.violate('sites-increase-with-population', 'available sites increase when the occupying populations grow', dict(case, x2=[x.tolist() for x in xs2]), [got, g2], 'non-increasing')
+                # oversubscribed: more occupied sites than N0 -> exactly 0
+                xs3 = [x.copy() for x in xs]
+                xs3[p] = xs3[p] + 2.5 * n0 / max(occ_unit(descs[p], pbms[p], cfg, NA), 1e-300) / len(xs3[p])
+                g3 = call(xs3)
+                if g3 != 0:
+                    res.violate('sites-not-zero-when-oversubscribed:' + site_p, 'precipitates of the site type occupy more than N0 sites but sites are still available',
+                                dict(case, x3=[x.tolist() for x in xs3]), g3, 0)
+                res.count('sites-oracle:own-population:' + site_p)
+            # populations of OTHER site types do not matter
+            others = [q for q in range(nph) if kinds[q] != kinds[p] and q not in parents]
+            if others:
+                xs4 = [x.copy() for x in xs]
+                for q in others:
+                    xs4[q] = xs4[q] * rng.choice([0.0, 3.0]) + rng.random() * (n0 if n0 > 0 else 1.0) / len(xs4[q])
+                g4 = call(xs4)
+                if not close(g4, got, 1e-12):
+                    res.violate('sites-affected-by-other-site-type:' + site_p, 'available sites change with the population of a phase nucleating on a different site type',
+                                dict(case, other_phases=others, x4=[x.tolist() for x in xs4]), [got, g4], 'equal')
+                res.count('sites-oracle:other-types:' + site_p + '<-' + '+'.join(sorted(set(descs[q]['site'] for q in others))))
+
+
+def site_kind(site):
+    """bulk and dislocation sites share one branch of _calcNucleationSites (DislocationDescription subclasses
+    BulkDescription and that test comes first) - documented observation, kept as the code's behaviour"""
+    return 'bulk' if site in ('bulk', 'disl') else site
+
+
+def occ_unit(d, pbm, cfg, NA):
+    """sites occupied by ONE precipitate per size class of this phase, summed over its classes (independent formulas)"""
+    r = np.asarray(pbm.PSDsize, dtype=float)
+    kind = site_kind(d['site'])
+    if kind in ('bulk', 'corner'):
+        return float(len(r))
+    if kind == 'gb':
+        return float(sum(math.pi * (1 - d['k'] ** 2) * ri ** 2 for ri in r) * (NA / cfg[6]) ** (2 / 3))
+    return float(sum(math.sqrt(1 - d['k'] ** 2) * ri for ri in r) * (NA / cfg[6]) ** (1 / 3))
+
+
+def ref_sites(cfg, descs, pbms, xs, precs, p, parents):
+    """independent scalar reference: (N0, occupied, parent sites) for phase p.  Occupancy per site kind:
+    bulk/dislocation and corners: one site per precipitate; boundaries: pi(1-k^2) r^2 of boundary area per precipitate in
+    atomic areas (N_A/Vm)^(2/3); edges: sqrt(1-k^2) r of edge length per precipitate in atomic lengths (N_A/Vm)^(1/3)"""
+    NA, Vm = cfg[5], cfg[6]
+    kind = site_kind(descs[p]['site'])
+    n0 = {'bulk': cfg[0], 'gb': cfg[2], 'edge': cfg[3], 'corner': cfg[4]}[kind]
+    occ = 0.0
+    for q, d in enumerate(descs):
+        if site_kind(d['site']) != kind:
+            continue
+        r = [float(v) for v in pbms[q].PSDsize]
+        n = [float(v) for v in xs[q]]
+        if kind in ('bulk', 'corner'):
+            occ += sum(n)
+        elif kind == 'gb':
+            occ += math.pi * (1 - d['k'] ** 2) * sum(ni * ri * ri for ni, ri in zip(n, r)) * (NA / Vm) ** (2 / 3)
+        else:
+            occ += math.sqrt(1 - d['k'] ** 2) * sum(ni * ri for ni, ri in zip(n, r)) * (NA / Vm) ** (1 / 3)
+    par = 0.0
+    for q in parents:
+        r = [float(v) for v in pbms[q].PSDsize]
+        par += 4 * math.pi * sum(ni * ri * ri for ni, ri in zip(xs[q], r)) * (NA / float(precs[q].volume.Vm)) ** (2 / 3)
+    return n0, occ, par
 
 
 # ---------------------------------------------------------------- a real Al-Zr run with a temperature jump
